@@ -181,6 +181,10 @@ class Scenario:
             self.va = rng.uniform(0.5, 50.0, ln)
             self.vb = self.va * (1.0 + 0.1 * rng.standard_normal(ln)) + 0.01
             self.vb = np.abs(self.vb) + 0.01
+        # signed data: a vector in (-0.5, 0.5] and the curve with its y centred (values below 0 but above -1) - legal for the
+        # logarithmic and absolute metrics, and exactly where 'clean the input up in place' edits show
+        self.vn = self.va / float(np.max(self.va)) - 0.5
+        self.PN = np.column_stack((self.P[:, 0], self.P[:, 1] / float(np.max(self.P[:, 1])) - 0.5))
         self.rects = rng.integers(0, 6, (4, 2)).astype(float) if integral else rng.uniform(0, 5, (4, 2))
         tri = rng.integers(-8, 9, (3, 2)).astype(float) if integral else rng.uniform(-8, 8, (3, 2))
         while abs((tri[1, 0] - tri[0, 0]) * (tri[2, 1] - tri[0, 1]) - (tri[2, 0] - tri[0, 0]) * (tri[1, 1] - tri[0, 1])) < 0.5 \
@@ -225,22 +229,24 @@ class Scenario:
         v = type('V', (), {})()
         v.s = self
         v.layout = layout
-        for name in ('P', 'PK', 'E', 'va', 'vb', 'rects', 'tri', 'Z', 'values', 'G'):
+        for name in ('P', 'PK', 'E', 'va', 'vb', 'rects', 'tri', 'Z', 'values', 'G', 'vn', 'PN'):
             arr = getattr(self, name)
             if flat:
                 # degenerate but legal-looking inputs (a constant curve, constant vectors): only used as history
                 # between two identical calls, never judged themselves
                 arr = np.array(arr, dtype=float)
-                if name in ('P', 'PK', 'Z', 'E'):
-                    arr[:, 1] = float(np.round(np.mean(self.P[:, 1]))) if name != 'Z' else 0.5
+                if name in ('P', 'PK', 'Z', 'E', 'PN'):
+                    arr[:, 1] = (float(np.round(np.mean(self.P[:, 1]))) if name != 'PN' else -0.25) if name != 'Z' else 0.5
                 elif name in ('va', 'vb', 'values'):
                     arr[...] = 3.0
             if alt:
                 # another valid input of the same shapes (used to pre-load reused buffers with different contents)
-                if name in ('P', 'Z'):
-                    arr = refill_values(arr)
+                if name in ('P', 'Z', 'PN'):
+                    arr = refill_values(arr) if name != 'PN' else np.column_stack((refill_values(self.P)[:, 0], arr[::-1, 1]))
                 elif name == 'PK':
                     arr = refill_values(self.P)[self.K]
+                elif name == 'vn':
+                    arr = arr[::-1] * 0.5
                 elif name in ('va', 'vb', 'values'):
                     arr = arr[::-1] * 2.0 + 1.0
                 elif name == 'G':
@@ -286,6 +292,11 @@ def entries(m):
         E[f'rdp.grdp[{c}]'] = lambda v, c=c: rdp.grdp(v.P, 0.9 if c is M.r2 else v.t, D.shortest, c, O.segment)
         E[f'rdp.mp_grdp[{c}]'] = lambda v, c=c: rdp.mp_grdp(v.P, 0.9 if c is M.r2 else v.t, v.k, D.shortest, c, O.triangle)
         E[f'rdp.compute_cost_coef[{c}]'] = lambda v, c=c: rdp.compute_cost_coef(v.P, lf.linear_fit_points(v.P), c)
+    for c in (M.rmsle, M.rmspe, M.r2):
+        E[f'evaluation.compute_partial_cost[signed,{c}]'] = lambda v, c=c: ev.compute_partial_cost(v.vn, v.vn[::-1] * 0.5, c)
+        E[f'evaluation.compute_global_cost[signed,{c}]'] = lambda v, c=c: ev.compute_global_cost(v.PN, v.reduced, c)
+    E['rdp.grdp[signed,rmsle]'] = lambda v: rdp.grdp(v.PN, v.t, D.shortest, M.rmsle, O.segment)
+    E['rdp.rdp[signed,rmsle]'] = lambda v: rdp.rdp(v.PN, min(v.t, 1.0), D.shortest, M.rmsle)
     E['rdp.min_point_rdp'] = lambda v: rdp.min_point_rdp(v.P, v.tlist, v.k)
     E['rdp.min_point_rdp[default]'] = lambda v: rdp.min_point_rdp(v.P)
     E['rdp.mapping'] = lambda v: rdp.mapping(v.KR, v.reduced, v.removed)
@@ -554,7 +565,7 @@ def call(ctx, name, fn, view, quiet_hist=False):
         return 'exc', type(e).__name__
 
 
-PURE_FIELDS = ('P', 'PK', 'E', 'va', 'vb', 'rects', 'tri', 'Z', 'values', 'G', 'K', 'KR', 'reduced', 'removed', 'tlist', 'cmx')
+PURE_FIELDS = ('P', 'PK', 'E', 'va', 'vb', 'rects', 'tri', 'Z', 'values', 'G', 'vn', 'PN', 'K', 'KR', 'reduced', 'removed', 'tlist', 'cmx')
 
 
 def run_entry(ctx, mods, name, fn, scen, layouts):
